@@ -244,6 +244,59 @@ func runC12(r *vk.Run) {
 			}
 		}
 	})
+	// wide vectors: 7..40 series on each side of one step (beyond the 12 elements up to which library sorts
+	// are insertion sorts, beyond 8 / 16 / 32-slot tables), operators whose operands cannot be swapped
+	r.Phase("wide", r.N(60, 6000), func(c *vk.Case) {
+		rng := c.Rng
+		ns := vk.Pick(rng, []int{7, 9, 13, 20, 33, 40})
+		steps := rng.Range(2, 4)
+		var recs []Rec
+		for st := 0; st < steps; st++ {
+			for i := 0; i < ns; i++ {
+				side := vk.Pick(rng, []string{"both", "both", "both", "l", "r"})
+				l := map[string]string{"job": "j", "side": side, "a": fmt.Sprintf("a%02d", i)}
+				ts := metricT0 + int64(st)*4e9 + 5e8 + int64(rng.Intn(3000))*1e6
+				if side == "both" {
+					// the two sides see different values of the same series: two records, one per side
+					ll, lr := copyMap(l), copyMap(l)
+					ll["side"], lr["side"] = "l", "r"
+					recs = append(recs, Rec{TS: ts, Line: fmt.Sprintf("v=%d", 10+i*3+st), Labels: ll}, Rec{TS: ts + 1000, Line: fmt.Sprintf("v=%d", 1+(i*7+st)%9), Labels: lr})
+					continue
+				}
+				recs = append(recs, Rec{TS: ts, Line: fmt.Sprintf("v=%d", 2+i), Labels: l})
+			}
+		}
+		sortRecs2(recs)
+		env := &MEnv{Recs: recs, Msg: env0.Msg, UnwrapKeeps: env0.UnwrapKeeps, CmpFalse: env0.CmpFalse, CmpFalseBool: env0.CmpFalseBool}
+		for _, op := range []string{"-", "/", "%", "^", ">", "<", ">=", "+", "unless", "and"} {
+			b := &BinOp{Op: op, L: c12Leaf("l|both"), R: c12Leaf("r|both"), Bool: isCmp(op) && rng.Bool()}
+			text := b.Text()
+			p := EvalP{Start: metricT0 + 4e9, End: metricT0 + int64(steps)*4e9, Step: 4 * time.Second}
+			res, err := evalQuery(&MemQuerier{Recs: recs, ErrAfter: -1}, text, p)
+			c.Eval(1)
+			det := map[string]any{"query": text, "series_per_side": ns, "params": p, "records": len(recs)}
+			if err != nil {
+				c.Fail("", "query failed: "+text+": "+err.Error(), det)
+				return
+			}
+			var m string
+			if isCmp(op) {
+				m = compareComparison(b, env, p, res)
+			} else {
+				m = compareMetric(b, env, p, res, 1e-12)
+			}
+			if m != "" {
+				det["result"] = trunc(res.Canonical(), 3000)
+				c.Fail("", fmt.Sprintf("%s over %d series a side: %s", text, ns, m), det)
+				return
+			}
+			c.Count("wide_operations", 1)
+		}
+		c.Max("series_per_side", int64(ns))
+		c.Nontrivial(fmt.Sprintf("wide|%d", c.Idx))
+	})
+	r.Require("wide_operations", 300)
+
 	// nested: x/0, x%0 (NaN) and Inf as operands of every operator
 	r.Phase("nested", r.N(150, 20000), func(c *vk.Case) {
 		rng := c.Rng
